@@ -599,6 +599,16 @@ def run(st, tier, seed):
             else:
                 if g.get("err") != "fix-error":
                     res.corr_breaks.append({"name": name + " (error class)", "input": inp, "model": g if "err" in g else "accepts", "impl": r.get("exc")})
+    # text level: the model of the --fixed file parser and of the substring dispatch of compiler() (PepperModel/ParseFixed.lean,
+    # theorems PepperProps/ParseFixed.lean) against the real parse_fixed / load_fixed / compiler()
+    if st.driver_ok:
+        import parsecorr_fixed
+        rt = core.rng_for(seed, "c12-text")
+        drvt = core.Driver()
+        parsecorr_fixed.check_lines(res, drvt, parsecorr_fixed.gen_lines(rt, 2000 if tier == "quick" else 60000), "text")
+        parsecorr_fixed.check_files(res, drvt, parsecorr_fixed.gen_files(rt, 60 if tier == "quick" else 2500), "text-file")
+        words = parsecorr_fixed.kind_words()
+        parsecorr_fixed.check_kinds(res, drvt, words if tier != "quick" else rt.sample(words, min(len(words), 300)), "text-kind")
     return res
 
 
